@@ -270,3 +270,65 @@ def term_queries(cx):
             okv = any(x[0] == "call" and x[1].endswith("RaftLog::term") and is_f(x[2][1], "RaftLog.committed") for x in walk(t)) and t[0] in ("tfield", "vfield", "call")
         ok = ok and okv
     cx.check(ok, "commit_info", "commit_info() returns (committed, term(committed)) (found %s)" % "; ".join(show(v)[:100] for _, v, _ in rets))
+
+
+@obligation("SNAP.caught_up_shape", ["C15", "C13", "C10"], floor=2, kind="return shape",
+            why="leaving the Snapshot state before the follower has acknowledged the snapshot index resumes appends while a snapshot is outstanding; never leaving it stalls replication")
+def caught_up_shape(cx):
+    f = cx.fn("Progress::is_snapshot_caught_up")
+    rets = cx.pg(f).returns()
+    ok = bool(rets)
+    seen = set()
+    for lits, v, _ in rets:
+        st = [l for l in lits if l[0] == "in" and is_f(l[1], "Progress.state")]
+        if st and "Snapshot" not in st[0][2]:
+            ok = ok and v == ("bool", False)
+            seen.add("other")
+        elif st and st[0][2] == frozenset(["Snapshot"]):
+            # pending_snapshot <= matched   (any spelling of it)
+            okv = v[0] == "bin" and ((v[1] == "Le" and is_f(v[2], "Progress.pending_snapshot") and is_f(v[3], "Progress.matched")) or (v[1] == "Ge" and is_f(v[2], "Progress.matched") and is_f(v[3], "Progress.pending_snapshot")))
+            if not okv and v in (("bool", True), ("bool", False)):
+                okv = any(l[0] == "is" and l[1][0] == "bin" and l[1][1] == "Lt" and is_f(l[1][2], "Progress.matched") and is_f(l[1][3], "Progress.pending_snapshot") and l[2] is (v == ("bool", False)) for l in lits)
+            ok = ok and okv
+            seen.add("snapshot")
+        else:
+            ok = False
+    cx.check(ok and seen == {"other", "snapshot"}, "caught-up", "is_snapshot_caught_up() = (state == Snapshot && matched >= pending_snapshot) (found %s)" % "; ".join("%s if %s" % (show(v)[:60], [show_lit(l)[:50] for l in lits]) for lits, v, _ in rets)[:300])
+    # its use: an acknowledgement in Snapshot state leaves that state only when caught up
+    n = 0
+    for c in callers_of(cx, f):
+        g = cx.pg(c.fn)
+        bp = call_blocks(c.fn, "Progress::become_probe")
+        def cu(l, b):
+            return l[0] == "is" and l[2] is b and l[1][0] == "call" and l[1][1].endswith("is_snapshot_caught_up")
+        ok1, n1 = g.after_edge_must_pass(lambda lits: any(cu(l, True) for l in lits), lambda b: b in bp)
+        cx.check(ok1 and n1 >= 1, cx.site_key(c, "leave-snapshot"), "a caught-up follower leaves the Snapshot state (become_probe)", c)
+        n += 1
+    cx.check(n >= 1, "floor", "is_snapshot_caught_up is consulted by the acknowledgement handler")
+
+
+@obligation("MSG.continuity_shape", ["C05", "C13", "C20"], floor=1, kind="return shape",
+            why="entries batched onto a queued append must continue it exactly; the emptiness tests guard two unwraps")
+def continuity_shape(cx):
+    f = cx.fn("util::is_continuous_ents")
+    rets = cx.pg(f).returns()
+    ok = bool(rets)
+    both = 0
+    for lits, v, _ in rets:
+        ne_msg = any(l[0] == "is" and l[2] is False and l[1][0] == "call" and l[1][1].endswith("is_empty") and any(is_f(x, "Message.entries") for x in walk(l[1])) for l in lits)
+        ne_ents = any(l[0] == "is" and l[2] is False and l[1][0] == "call" and l[1][1].endswith("is_empty") and l[1][2][0][0] == "param" for l in lits)
+        uses_last = any(x[0] == "call" and x[1].endswith("::last") for x in walk(v))
+        uses_first = any(x[0] == "call" and x[1].endswith("::first") for x in walk(v)) or any(x[0] == "index" for x in walk(v))
+        if ne_msg and ne_ents:
+            both += 1
+            okv = v[0] == "bin" and v[1] == "Eq"
+            if okv:
+                l_, r_ = v[2], v[3]
+                lastp1 = [x for x in (l_, r_) if x[0] == "bin" and x[1] == "Add" and ("int", 1) in x[2:4] and any(y[0] == "call" and y[1].endswith("::last") and any(is_f(z, "Message.entries") for z in walk(y)) for y in walk(x)) and any(is_f(y, "Entry.index") for y in walk(x))]
+                first = [x for x in (l_, r_) if is_f(x, "Entry.index") and x not in lastp1]
+                okv = len(lastp1) == 1 and len(first) == 1
+            ok = ok and okv
+        else:
+            # an unwrap of last()/first() without the matching non-empty test would be a panic
+            ok = ok and v == ("bool", True) and not uses_last and not uses_first
+    cx.check(ok and both == 1, "continuous", "is_continuous_ents(msg, ents) = both non-empty ⇒ msg.entries.last().index + 1 == ents[0].index, else true (found %s)" % "; ".join(show(v)[:80] for _, v, _ in rets)[:260])
